@@ -3,37 +3,50 @@
 E2 (explicit-state search over operation histories, model state as merge key).  A *world* is one primary buffer
 `b` (ArrayBuffer(8) | ArrayBuffer(16) | resizable ArrayBuffer(8, max 16) | SharedArrayBuffer(8) | growable
 SharedArrayBuffer(8, max 16)) initialised with a fixed byte pattern plus either
-  * a typed-array view `a` (12 element types x byteOffset {0, elemsize, 8} x length {length-tracking, 1, 2}) and a
-    companion view `c` of a different element type on the same buffer, or
-  * a DataView `d` (byteOffset {0,1} x byteLength {auto,4}).
-A history is a sequence of operations (resize/grow, detach, buffer slice, element get/set/has/delete/define with keys
--1, 0, len-1, len, "1.5", "-0", fill, set(array | overlapping view), subarray, copyWithin, slice, sort, reverse, at,
-indexOf/includes/lastIndexOf/join, iteration, map/forEach, with/toSorted/toReversed, Atomics.{load,store,add,
-compareExchange}, view construction, DataView get/set for every type x byte order x offset) whose arguments include
-objects whose valueOf detaches / shrinks / grows the buffer in the middle of the operation.  Every history is replayed
-on the real engine from a fresh set of objects (`P()` rebuilds buffer and views and replays the prefix) and after
-EVERY step the script dumps the buffer (byteLength, maxByteLength, raw bytes) and every live view (length, byteOffset,
-byteLength, all elements, element 0, element [length]); the reference model (vlib/c15_model.py: the spec algorithms
-on a Python bytearray) must produce the identical text.  Histories that reach an already known model state (bytes,
-detached flag; the views are fixed per world) are merged: only the first one is extended.
+  * a typed-array view `a` (12 element types incl. Float16 x byteOffset {0, elemsize, 8} x length {length-tracking, 1, 2})
+    and a companion view `c` of a different element type on the same buffer (495 worlds), or
+  * a DataView `d` (byteOffset {0,1} x byteLength {auto,4}) (20 worlds).
+A history is a sequence of operations: resize/grow to {0,4,8,12,16}, detach, buffer slice, element get/has/delete/
+getOwnPropertyDescriptor/set/defineProperty with keys -1, 0, len-1, len, "1.5", "-0", fill, Array.prototype.fill, set(array |
+overlapping view of another type | overlapping subarray), subarray, copyWithin, slice (also with a species constructor that
+returns a view on the SAME buffer), sort / toSorted (default, comparator, comparator with side effect), reverse, toReversed,
+with, at, indexOf / lastIndexOf / includes (NaN, undefined, present element), join, spread, keys, map / forEach / filter /
+findLastIndex whose callback resizes, Atomics.{load,store,add,compareExchange}, construction of new views / DataViews on
+the current buffer, DataView get/set for all 11 types x {little, big, default} x offset {0, 1, len-size, len-size+1}.
+Arguments include objects whose valueOf detaches / shrinks to 0 or 4 / grows to 16 the buffer in the middle of the
+operation (value, index, start, end, offset and comparator positions).
 
-Plus the single-step conversion table: every element type x every value of the conversion alphabet through element
-store / fill / constructor-from-array / of / from / set(array) / Atomics.store / DataView set in both byte orders, and every
-ordered pair of element types through `new T2(t1)`, `t2.set(t1)`.
+Every history is replayed on the real engine from fresh objects (`P()` rebuilds buffer and views and replays the
+prefix) and after EVERY step the script prints the operation's result and dumps the buffer (byteLength, maxByteLength, raw
+bytes) and every live view (length, byteOffset, byteLength, all elements, element [0], element [length]); the reference
+model (vlib/c15_model.py: the spec algorithms on a Python bytearray) must produce the identical text.  Histories that reach
+an already known model state (bytes + detached flag; the views are fixed per world) are merged: only the first is extended.
 
-Engine notes (this boa revision): `ArrayBuffer.prototype.transfer/transferToFixedLength` do not exist, so detaching is
-done through the embedder API by the host function `__detach` of the `vc15` runner (crate harness/crates/vc15).
-Float16Array, resizable ArrayBuffer and growable SharedArrayBuffer exist and are covered.
+Levels per world are given by a plan [(alphabet, parent filter)]: alphabets tiny < core < quick < full; parent filter `all`
+= every new model state is extended, `geom` = only the first state of every new geometry path (sequence of buffer lengths /
+detached).  quick: [quick/all, core/geom]; thorough: resizable/growable worlds [full/all, quick/all, tiny/all, core/geom]
+(depth 4), fixed-length worlds [full/all, core/all, core/geom].  An operation that produced a violation in a world is
+reported with its shortest history and not re-applied deeper in that world (recorded in caps_hit).
 
-Oracle deviations from V8 (cross-validation at authoring time, see oracle/c15_xval.md): V8 throws RangeError for
-`subarray` on a length-tracking view whose buffer shrank below its offset where the spec constructs through
-TypedArraySpeciesCreate (boa follows the spec); the model follows the spec text.
+Plus the single-step conversion table: every element type x every value of the conversion alphabet (60 Number-side values,
+24 BigInt-side values) through element store / fill / constructor-from-array / of / from / set(array) / with / DataView set in both
+byte orders / Atomics.store, add, compareExchange; and every ordered pair of element types through `new T2(t1)` and
+`t2.set(t1)` with t1 holding the whole alphabet.
 
-Any RustPanic / Abort / Hang completion is a violation of the memory-safety half of the property.
+Engine notes (this boa revision): `ArrayBuffer.prototype.transfer/transferToFixedLength` exist only behind the cargo feature
+`experimental`, which the harness build does not enable, so detaching is done through the embedder API
+(`JsArrayBuffer::detach`) by the host function `__detach` of the `vc15` runner (crate harness/crates/vc15).  Float16Array,
+resizable ArrayBuffer and growable SharedArrayBuffer exist and are covered.
+
+The oracle is the model, not V8: oracle/c15_xval.md lists the five places where V8 11.3 deviates from the spec text (boa
+agrees with the text on all of them) and the sizes of the authoring-time cross-validation (> 300 000 histories).
+
+Any RustPanic / EnginePanic / Abort / Hang completion is a violation of the memory-safety half of the property.
 """
 import json
 import math
 import os
+import re
 import shutil
 from multiprocessing import Pool
 
@@ -52,22 +65,21 @@ var b, a, c, d, r, D, FX, RS, DL, CMP, S;
 (function () {
   var show = __show, emit = __emit, isView = ArrayBuffer.isView, U8 = Uint8Array, DVC = DataView, AB = ArrayBuffer,
       SAB = SharedArrayBuffer, isArr = Array.isArray, ots = Object.prototype.toString, detach = __detach;
-  var HEX = '0123456789abcdef';
+  var tjoin = U8.prototype.join, call = Function.prototype.call.bind(Function.prototype.call);
   function bytes(buf) {
     var u;
     try { u = new U8(buf); } catch (e) { return '<!' + e.name + '>'; }
-    var s = '<';
-    for (var i = 0; i < u.length; i++) { var x = u[i]; s += HEX[x >> 4] + HEX[x & 15]; }
-    return s + '>';
+    return '<' + call(tjoin, u, ' ') + '>';
   }
   function T(f) { try { return show(f()); } catch (e) { return 'E ' + (e && e.name); } }
   S = function (v) {
     if (v === null || typeof v !== 'object') return show(v);
     if (v instanceof DVC) return 'DV(' + T(function () { return v.byteLength; }) + '@' + T(function () { return v.byteOffset; }) + ')';
     if (isView(v)) {
-      var n = v.length, p = [];
-      for (var i = 0; i < n; i++) p.push(show(v[i]));
-      return ots.call(v).slice(8, -6) + '(' + n + '@' + v.byteOffset + '/' + v.byteLength + ')[' + p.join(',') + ']';
+      // elements through the native join (Get(O,k) + ToString per element: -0 prints as 0, BigInts without suffix;
+      // the raw byte dump and the explicit reads in D() keep those distinctions)
+      var n = v.length;
+      return call(ots, v).slice(8, -6) + '(' + n + '@' + v.byteOffset + '/' + v.byteLength + ')[' + (n ? call(tjoin, v, ',') : '') + ']';
     }
     if (v instanceof AB || v instanceof SAB) return 'B' + bytes(v);
     if (isArr(v)) { var q = []; for (var j = 0; j < v.length; j++) q.push(S(v[j])); return '[' + q.join(',') + ']'; }
@@ -277,6 +289,22 @@ def op_js(op):
         return "a.copyWithin(%s)" % _args(p)
     if n == "slice":
         return "a.slice(%s)" % _args(p)
+    if n == "slice_sp":
+        mode = p[0]
+        if mode == "fwd":
+            ctor = "new C(b,a.byteOffset+C.BYTES_PER_ELEMENT,n)"
+        elif mode == "back":
+            ctor = "new C(b,a.byteOffset,n)"
+        else:
+            ctor = "new %sArray(b,0,n)" % mode.split(":")[1]
+        return ("(function(){var C=Object.getPrototypeOf(a).constructor,sp={};sp[Symbol.species]=function(n){return %s};"
+                "a.constructor=sp;try{return a.slice(%s)}finally{delete a.constructor}})()" % (ctor, _args(p[1:])))
+    if n == "filter":
+        return "a.filter(function(v,i){if(i===0)FX(%s,0).valueOf();return true})" % json.dumps(p[0])
+    if n == "findLastIndexU":
+        return "(function(){var f=true;return a.findLastIndex(function(v){if(f){f=false;FX(%s,0).valueOf()}return v===undefined})})()" % json.dumps(p[0])
+    if n == "afill":
+        return "Array.prototype.fill.call(a,%s)" % _args(p)
     if n == "sort":
         if p[0] is None:
             return "a.sort()"
@@ -384,6 +412,16 @@ def op_apply(op, w):
     if n == "slice":
         xs = [V(x) for x in p] + [None, None]
         return w.ta_slice(a, xs[0], xs[1])
+    if n == "slice_sp":
+        xs = [V(x) for x in p[1:]] + [None, None]
+        return w.ta_slice_species(a, xs[0], xs[1], p[0])
+    if n == "filter":
+        return w.ta_filter(a, p[0])
+    if n == "findLastIndexU":
+        return w.ta_find_last_index_undefined(a, p[0])
+    if n == "afill":
+        xs = [V(x) for x in p] + [None, None]
+        return w.array_fill(a, xs[0], xs[1], xs[2])
     if n == "sort":
         return w.ta_sort(a, p[0], p[1] if len(p) > 1 else None)
     if n == "toSorted":
@@ -520,11 +558,11 @@ def setup(spec):
     exp = []
 
     def mk(name, js_new, f):
-        js.append("r(function(){%s=%s;return S(%s)});" % (name, js_new, name))
+        js.append("r(function(){%s=%s;return %s});" % (name, js_new, name))
         try:
             v = f()
             w.views[name] = v
-            exp.append(M.show(M.render_ta(v)) if isinstance(v, TA) else '"DV(%s@%s)"' % (M.show(w.dv_byte_length(v)), M.show(w.dv_byte_offset(v))))
+            exp.append(M.render_ta(v) if isinstance(v, TA) else "DV(%s@%s)" % (M.show(w.dv_byte_length(v)), M.show(w.dv_byte_offset(v))))
         except JSErr as e:
             w.views[name] = None
             exp.append("E " + e.name)
@@ -557,7 +595,33 @@ def fx(e, x):
     return ("fx", e, x)
 
 
-def ta_alphabet(spec, full):
+LEVELS = {"tiny": 3, "core": 2, "quick": 1, "full": 0}
+
+
+class _Alpha:
+    """collects (op, level) with level 3 = tiny, 2 = core, 1 = quick, 0 = full only (tiny < core < quick < full)"""
+
+    def __init__(self):
+        self.ops = []
+
+    def t(self, *op):
+        self.ops.append((op, 3))
+
+    def k(self, *op):
+        self.ops.append((op, 2))
+
+    def q(self, *op):
+        self.ops.append((op, 1))
+
+    def f(self, *op):
+        self.ops.append((op, 0))
+
+    def select(self, name):
+        lv = LEVELS[name]
+        return [op for op, l in self.ops if l >= lv]
+
+
+def ta_alphabet(spec, name):
     _, kind, t, off, length = spec
     _, _, mx, shared = BUFKINDS[kind]
     big = M.is_big(t)
@@ -565,39 +629,42 @@ def ta_alphabet(spec, full):
     V1 = ("b", 258) if big else N(258.5)
     V2 = ("b", -3) if big else N(-3)
     WRONG = N(1) if big else ("b", 1)
-    ops = []
-
-    def q(*op):
-        ops.append((op, True))
-
-    def f(*op):
-        ops.append((op, False))
-    shrink = "S"
+    A = _Alpha()
+    t_, k, q, f = A.t, A.k, A.q, A.f
+    S_ = "S"
+    DG = "D" if not shared else "G"
     # --- buffer
     if mx is not None:
         for n in (0, 4, 8, 12, 16):
-            q("resize", N(n))
+            t_("resize", N(n))
         f("resize", N(17))
         f("resize", N(-1))
     else:
-        q("resize", N(4))
+        k("resize", N(4))
     if not shared:
-        q("detach")
+        t_("detach")
     q("bslice", N(2), N(6))
     f("bslice", N(-4))
-    f("bslice", fx("Z", N(0)), N(8))
+    q("bslice", fx("Z", N(0)), N(8))
     f("bslice", N(0), fx("D", N(8)))
     # --- element access
-    keys = [N(-1), N(0), ("L1",), ("L",), ("s", "1.5"), ("s", "-0")]
-    for k in keys:
-        q("probe", k)
-    for k in keys:
-        q("put", k, V1)
+    t_("probe", N(0))
+    t_("probe", ("L1",))
+    k("probe", ("L",))
+    q("probe", N(-1))
+    q("probe", ("s", "1.5"))
+    q("probe", ("s", "-0"))
+    k("put", N(0), V1)
+    t_("put", ("L1",), V1)
+    k("put", ("L",), V1)
+    q("put", N(-1), V1)
+    q("put", ("s", "1.5"), V1)
+    q("put", ("s", "-0"), V1)
     q("put", N(0), fx("D", V2))
-    q("put", N(0), fx(shrink, V2))
-    q("put", ("L1",), fx(shrink, V2))
+    q("put", N(0), fx(S_, V2))
+    k("put", ("L1",), fx(S_, V2))
     q("put", ("L1",), fx("Z", V2))
-    q("put", ("L",), fx("G", V2))
+    k("put", ("L",), fx("G", V2))
     q("put", N(0), WRONG)
     f("put", ("L",), WRONG)
     f("put", N(0), ("s", "7"))
@@ -606,157 +673,165 @@ def ta_alphabet(spec, full):
     f("put", ("s", "1.5"), fx("D", V2))
     q("define", N(0), V2)
     q("define", ("L",), V2)
-    q("define", ("L1",), fx(shrink, V2))
+    q("define", ("L1",), fx(S_, V2))
     f("define", N(0), fx("D", V2))
     # --- fill
-    q("fill", V1)
+    k("fill", V1)
     q("fill", V2, N(1))
     q("fill", V1, N(-1))
     q("fill", V2, N(0), N(1))
-    q("fill", fx(shrink, V1))
-    q("fill", V1, fx(shrink, N(0)))
+    k("fill", fx(S_, V1))
+    k("fill", V1, fx(S_, N(0)))
     q("fill", V2, N(0), fx("G", N(16)))
     f("fill", fx("D", V1))
     f("fill", V1, fx("D", N(0)))
     f("fill", fx("Z", V2), N(1))
     f("fill", WRONG)
     # --- set
-    q("set_list", (V1, V2), U)
+    k("set_list", (V1, V2), U)
     q("set_list", (V1, V2), N(1))
-    q("set_list", (V1, fx(shrink, V2)), U)
+    k("set_list", (V1, fx(S_, V2)), U)
     q("set_list", (fx("D", V1), V2), U)
-    q("set_list", (V1,), fx(shrink, N(0)))
-    q("set_ta", "c", U)
+    q("set_list", (V1,), fx(S_, N(0)))
+    k("set_ta", "c", U)
     q("set_ta", "c", N(1))
-    q("set_ta", "sub1", U)
+    k("set_ta", "sub1", U)
     q("set_ta", "sub0", N(1))
     f("set_list", (fx("Z", V1), V2), N(1))
     f("set_list", (V1, V2), N(-1))
     f("set_list", (V1,), N(math.inf))
     f("set_list", (WRONG,), U)
-    f("set_ta", "c", fx(shrink, N(0)))
+    f("set_ta", "c", fx(S_, N(0)))
     f("set_ta", "sub1", fx("D", N(0)))
     # --- subarray / slice / copyWithin
-    q("subarray", N(1))
+    k("subarray", N(1))
     q("subarray", N(0), N(1))
     q("subarray", N(-1))
-    q("subarray", fx(shrink, N(1)))
-    q("subarray", N(0), fx(shrink, N(1)))
+    k("subarray", fx(S_, N(1)))
+    q("subarray", N(0), fx(S_, N(1)))
     f("subarray", fx("D", N(0)))
     f("subarray", fx("Z", N(0)), N(1))
     f("subarray", fx("G", N(1)))
     q("copyWithin", N(0), N(1))
-    q("copyWithin", N(1), N(0))
+    k("copyWithin", N(1), N(0))
     q("copyWithin", N(0), N(1), N(2))
-    q("copyWithin", N(1), N(0), fx(shrink, N(16)))
-    q("copyWithin", fx(shrink, N(0)), N(1))
-    q("copyWithin", N(0), fx(shrink, N(1)))
+    k("copyWithin", N(1), N(0), fx(S_, N(16)))
+    q("copyWithin", fx(S_, N(0)), N(1))
+    q("copyWithin", N(0), fx(S_, N(1)))
     f("copyWithin", N(1), N(0), fx("D", N(16)))
     f("copyWithin", N(0), N(1), fx("Z", N(16)))
     f("copyWithin", N(1), fx("G", N(0)))
     q("slice", N(0), N(1))
-    q("slice", N(1))
+    k("slice", N(1))
     q("slice", N(-1))
-    q("slice", N(0), fx(shrink, N(2)))
+    k("slice", N(0), fx(S_, N(2)))
     q("slice", fx("Z", N(0)))
     f("slice", fx("D", N(0)), N(1))
     f("slice", N(0), fx("G", N(16)))
+    k("slice_sp", "fwd", N(0), N(-1))
+    q("slice_sp", "back", N(1))
+    q("slice_sp", "partner:" + PARTNER[t], N(0), N(1))
+    f("slice_sp", "fwd", N(0), fx(S_, N(-1)))
+    f("slice_sp", "back", fx("G", N(1)))
+    q("filter", S_)
+    f("filter", "N")
+    q("findLastIndexU", S_)
+    f("findLastIndexU", "Z")
+    q("afill", V1, N(1))
+    q("afill", fx(S_, V2))
+    f("afill", V1, fx(S_, N(0)))
     # --- sort / reverse
-    q("sort", None)
+    k("sort", None)
     q("sort", "desc", None)
-    q("sort", "desc", shrink)
-    q("sort", "desc", "D" if not shared else "G")
+    k("sort", "desc", S_)
+    q("sort", "desc", DG)
     f("sort", "zero", None)
     f("sort", "desc", "Z")
     q("toSorted")
-    q("reverse")
+    k("reverse")
     q("toReversed")
     q("with", N(0), V1)
-    q("with", ("L1",), fx(shrink, V1))
+    k("with", ("L1",), fx(S_, V1))
     f("with", N(-1), V2)
     f("with", ("L",), V1)
     f("with", fx("Z", N(0)), V1)
     # --- read-only searches
-    q("at", N(-1))
+    k("at", N(-1))
     q("at", N(0))
     q("at", ("L",))
-    q("at", fx(shrink, N(0)))
-    q("at", fx(shrink, N(-1)))
+    q("at", fx(S_, N(0)))
+    k("at", fx(S_, N(-1)))
     q("indexOf", N(math.nan))
     q("includes", N(math.nan))
-    q("indexOf", ("E0",))
+    k("indexOf", ("E0",))
     q("lastIndexOf", ("E0",))
-    q("includes", ("u",), fx(shrink, N(0)))
-    q("indexOf", ("E0",), fx(shrink, N(0)))
+    k("includes", ("u",), fx(S_, N(0)))
+    q("indexOf", ("E0",), fx(S_, N(0)))
     q("includes", ("EL",), fx("Z", N(0)))
-    q("lastIndexOf", ("EL",), fx(shrink, N(16)))
+    q("lastIndexOf", ("EL",), fx(S_, N(16)))
     f("lastIndexOf", ("EL",), N(-1))
     f("indexOf", ("EL",), N(-1))
     f("includes", ("E0",), N(1))
-    q("join")
-    q("iter")
+    k("join")
+    t_("iter")
     q("keys")
-    q("map", shrink)
+    k("map", S_)
     q("forEach", "Z")
     f("map", "N")
-    f("map", "D" if not shared else "G")
+    f("map", DG)
     # --- Atomics
     if M.is_atomic_ok(t):
         q("aload", N(0))
-        q("aload", ("L1",))
+        k("aload", ("L1",))
         q("aload", ("L",))
         q("astore", N(0), V1)
-        q("astore", ("L1",), V2)
+        k("astore", ("L1",), V2)
         q("astore", ("L",), V1)
         q("aadd", N(0), V1)
         q("aadd", ("L1",), V2)
-        q("acx", N(0), ("E0",), V1)
+        k("acx", N(0), ("E0",), V1)
         q("acx", N(0), V1, V2)
-        q("astore", N(0), fx(shrink, V1))
-        q("astore", ("L1",), fx(shrink, V1))
-        q("aadd", ("L1",), fx("Z", V1))
-        q("acx", ("L1",), ("EL",), fx("D" if not shared else "G", V1))
-        q("aload", fx(shrink, N(0)))
-        q("astore", fx(shrink, ("L1",)), V1)
+        f("astore", N(0), fx(S_, V1))
+        k("astore", ("L1",), fx(S_, V1))
+        f("aadd", ("L1",), fx("Z", V1))
+        q("acx", ("L1",), ("EL",), fx(DG, V1))
+        q("aload", fx(S_, N(0)))
+        f("astore", fx(S_, ("L1",)), V1)
         f("astore", N(-1), V1)
         f("aload", fx("D", N(0)))
         f("aadd", N(0), fx("G", V2))
-        f("acx", ("L1",), fx(shrink, V1), V2)
+        f("acx", ("L1",), fx(S_, V1), V2)
         f("astore", N(0), WRONG)
     else:
         q("aload", N(0))
         q("astore", N(0), V1)
     # --- views constructed on the current buffer
-    q("newview", t, N(0), U)
-    q("newview", t, N(size), N(1))
+    k("newview", t, N(0), U)
+    k("newview", t, N(size), N(1))
     q("newview", PARTNER[t], N(0), N(2))
-    q("copyview", t)
+    k("copyview", t)
     f("newview", t, N(8), U)
-    f("newview", t, N(size), fx(shrink, N(1)))
+    f("newview", t, N(size), fx(S_, N(1)))
     f("newview", t, fx("Z", N(0)), U)
     f("newview", t, N(1), U)
-    return [op for op, quick in ops if full or quick]
+    return A.select(name)
 
 
-def dv_alphabet(spec, full):
+def dv_alphabet(spec, name):
     _, kind, off, length = spec
     _, _, mx, shared = BUFKINDS[kind]
-    ops = []
-
-    def q(*op):
-        ops.append((op, True))
-
-    def f(*op):
-        ops.append((op, False))
+    A = _Alpha()
+    t_, k, q, f = A.t, A.k, A.q, A.f
     if mx is not None:
         for n in (0, 4, 8, 12, 16):
-            q("resize", N(n))
+            t_("resize", N(n))
     else:
-        q("resize", N(4))
+        k("resize", N(4))
     if not shared:
-        q("detach")
+        t_("detach")
     q("bslice", N(1), N(5))
     positions = [N(0), N(1)]
+    core_types = ("Uint8", "Int16", "Float32", "BigInt64")
     quick_set = ("Uint16", "Float32", "BigInt64")
     for t in DV_TYPES:
         size = M.size_of(t)
@@ -764,31 +839,37 @@ def dv_alphabet(spec, full):
         V1 = ("b", 258) if big else N(258.5)
         V2 = ("b", -3) if big else N(-3)
         pos = positions + [("DE", size), ("DE", size - 1)]
+        core = t in core_types
         for le in (("t",), ("f",)):
-            for ps in pos:
-                q("dvget", t, ps, le)
             for i, ps in enumerate(pos):
-                (q if (t in quick_set and i in (1, 2)) else f)("dvset", t, ps, V1, le)
+                (k if (core and i in (1, 2, 3)) else q)("dvget", t, ps, le)
+            for i, ps in enumerate(pos):
+                if core and i == 2 and le == ("t",):
+                    (t_ if t == "Int16" else k)("dvset", t, ps, V1, le)
+                elif t in quick_set and i in (1, 2):
+                    q("dvset", t, ps, V1, le)
+                else:
+                    f("dvset", t, ps, V1, le)
         q("dvget", t, N(0), U)
         f("dvset", t, N(1), V2, U)
-        q("dvget", t, fx("S", N(0)), ("t",))
-        q("dvset", t, N(0), fx("Z", V1), ("t",))
+        (k if core else q)("dvget", t, fx("S", N(0)), ("t",))
+        (k if core else q)("dvset", t, N(0), fx("Z", V1), ("t",))
         q("dvset", t, fx("S", N(1)), V2, ("f",))
         f("dvget", t, fx("D", N(0)), ("f",))
         f("dvset", t, N(0), fx("D" if not shared else "G", V2), ("f",))
         f("dvget", t, N(-1), ("t",))
         f("dvset", t, ("DE", size), fx("G", V1), ("t",))
-    q("newdv", N(0), U)
+    k("newdv", N(0), U)
     q("newdv", N(1), N(4))
     q("newdv", N(8), U)
     q("newdv", N(9), U)
     f("newdv", fx("S", N(4)), N(4))
     f("newdv", N(0), fx("Z", N(1)))
-    return [op for op, quick in ops if full or quick]
+    return A.select(name)
 
 
-def alphabet(spec, full):
-    return ta_alphabet(spec, full) if spec[0] == "ta" else dv_alphabet(spec, full)
+def alphabet(spec, name):
+    return ta_alphabet(spec, name) if spec[0] == "ta" else dv_alphabet(spec, name)
 
 
 # ------------------------------------------------------------------------------------------------------------------
@@ -808,7 +889,7 @@ def run_groups(groups):
         for gi, start in pending:
             pdef, runs = groups[gi]
             jobs.append({"kind": "c15", "hist": [HELPERS, pdef] + runs[start:]})
-        res = core.run_jobs(jobs, binary=VC15, nproc=1, chunk=max(1, min(64, len(jobs))))
+        res = core.run_jobs(jobs, binary=VC15, nproc=1, chunk=max(1, len(jobs)))
         nxt = []
         for (gi, start), r in zip(pending, res):
             pdef, runs = groups[gi]
@@ -859,11 +940,12 @@ def adopt_nans(w, got_lines, nsetup):
     idx = nsetup + 1
     if idx >= len(got_lines):
         return False
-    parts = got_lines[idx].split(" ")
-    if len(parts) != 4 or parts[0] != "b" or not (parts[3].startswith("<") and parts[3].endswith(">")):
+    line = got_lines[idx]
+    if not line.startswith("b ") or "<" not in line or not line.endswith(">"):
         return False
+    body = line[line.index("<") + 1:-1]
     try:
-        raw = bytes.fromhex(parts[3][1:-1])
+        raw = bytes(int(x) for x in body.split(" ")) if body else b""
     except ValueError:
         return False
     if len(raw) != len(w.b.data):
@@ -882,46 +964,75 @@ def adopt_nans(w, got_lines, nsetup):
 
 
 class Node:
-    __slots__ = ("hist", "hist_js", "exp", "w")
+    __slots__ = ("hist", "hist_js", "exp", "w", "gpath")
 
-    def __init__(self, hist, hist_js, exp, w):
-        self.hist, self.hist_js, self.exp, self.w = hist, hist_js, exp, w
+    def __init__(self, hist, hist_js, exp, w, gpath):
+        self.hist, self.hist_js, self.exp, self.w, self.gpath = hist, hist_js, exp, w, gpath
 
 
-def explore_world(task):
-    """one world, BFS to the given depth.  task = (spec, plan) with plan = list of booleans `full alphabet?` per level.
-    Returns a summary dict (no chk access in workers)."""
-    spec, plan, max_nodes = task
-    setup_js, w0, exp0, ok = setup(spec)
-    summ = {"spec": spec, "states": 1, "transitions": 0, "validated": 0, "histories": 0, "viol": [], "outcomes": set(),
-            "levels": [], "capped": False, "merged": 0, "sample": None, "nontrivial": 0}
-    if not ok:
-        res = run_groups([(pdef_js(setup_js, []), ["P();"])])[0][0]
-        summ["transitions"] += 1
-        summ["validated"] += 1
-        summ["histories"] += 1
-        check_run(summ, spec, [], None, exp0, res, setup_js)
-        return finish_world(summ)
-    seen = {w0.key()}
-    frontier = [Node([], [], exp0, w0)]
-    for level, full in enumerate(plan, start=1):
-        ops = alphabet(spec, full)
-        opjs = [op_js(op) for op in ops]
+def geometry(w):
+    return "D" if w.b.detached else len(w.b.data)
+
+
+class WorldRun:
+    """BFS over one world, driven level by level (so that many worlds can share one engine process per level).
+
+    task = (spec, plan, cap) with plan = [(alphabet name, parent filter), ...] per level: alphabet in
+    tiny < core < quick < full; parent filter 'all' = every newly discovered model state is extended, 'geom' = only the
+    first state of every not yet extended *geometry path* (sequence of buffer lengths / detached along the history,
+    consecutive duplicates removed)."""
+
+    def __init__(self, task):
+        self.spec, self.plan, self.max_nodes = task
+        self.setup_js, w0, self.exp0, self.ok = setup(self.spec)
+        self.summ = {"spec": self.spec, "states": 1, "transitions": 0, "validated": 0, "histories": 0, "viol": [], "outcomes": set(),
+                     "levels": [], "capped": False, "merged": 0, "sample": None, "nontrivial": 0, "pruned": 0, "depth": 0}
+        self.level = 0
+        self.seen = {w0.key()}
+        self.frontier = [Node([], [], self.exp0, w0, (geometry(w0),))]
+        self.used_paths = {self.frontier[0].gpath}
+        self.failed_ops = set()   # ops that already produced a violation in this world: reported once, with the shortest history
+        self.done = False
+        self.metas = None
+
+    def prepare(self):
+        """-> list of groups (pdef, runs) for the next level, [] when finished"""
+        if self.done:
+            return []
+        if not self.ok:
+            return [(pdef_js(self.setup_js, []), ["P();"])]
+        self.level += 1
+        aname = self.plan[self.level - 1][0]
+        ops_all = alphabet(self.spec, aname)
+        self.ops = [op for op in ops_all if op not in self.failed_ops]
+        self.summ["pruned"] += (len(ops_all) - len(self.ops)) * len(self.frontier)
+        opjs = [op_js(op) for op in self.ops]
         groups = []
-        metas = []
-        for node in frontier:
+        self.metas = []
+        for node in self.frontier:
             runs = []
             meta = []
-            for op, oj in zip(ops, opjs):
+            for op, oj in zip(self.ops, opjs):
                 w = node.w.clone()
                 lines = model_step(op, w)
                 runs.append(run_js(oj))
                 meta.append((op, oj, w, lines))
-            groups.append((pdef_js(setup_js, node.hist_js), runs))
-            metas.append(meta)
-        results = run_groups(groups)
+            groups.append((pdef_js(self.setup_js, node.hist_js), runs))
+            self.metas.append(meta)
+        return groups
+
+    def absorb(self, results):
+        summ, spec = self.summ, self.spec
+        if not self.ok:
+            summ["transitions"] += 1
+            summ["validated"] += 1
+            summ["histories"] += 1
+            check_run(summ, spec, [], None, self.exp0, results[0][0], self.setup_js)
+            self.done = True
+            return
+        level, plan = self.level, self.plan
         nxt = []
-        for node, meta, res in zip(frontier, metas, results):
+        for node, meta, res in zip(self.frontier, self.metas, results):
             for (op, oj, w, lines), r in zip(meta, res):
                 got = r.get("lines", []) if r else []
                 exp = node.exp + lines
@@ -931,30 +1042,70 @@ def explore_world(task):
                 summ["transitions"] += len(node.hist) + 1
                 summ["validated"] += len(node.hist) + 1
                 summ["histories"] += 1
-                good = check_run(summ, spec, node.hist, op, exp, r, setup_js, node.hist_js, oj)
+                good = check_run(summ, spec, node.hist, op, exp, r, self.setup_js, node.hist_js, oj)
                 summ["outcomes"].add(core.sha12(lines))
-                if lines[0] != "undefined" or lines[1:] != node.exp[-(len(lines) - 1):]:
+                nontrivial = lines[0] != "undefined" or lines[1:] != node.exp[-(len(lines) - 1):]
+                if nontrivial:
                     summ["nontrivial"] += 1
-                if summ["sample"] is None and level == len(plan) and lines[0].startswith(("E", "Int", "Uint", "Float", "Big")) is False:
-                    summ["sample"] = {"world": list(spec), "history": node.hist_js + [oj], "last_step_lines": lines}
                 if not good:
+                    self.failed_ops.add(op)
                     continue                # do not extend a state on which model and engine already disagree
                 key = w.key()
-                if key in seen:
+                if key in self.seen:
                     summ["merged"] += 1
                     continue
-                seen.add(key)
-                if level < len(plan):
-                    nxt.append(Node(node.hist + [op], node.hist_js + [oj], exp, w))
-        summ["levels"].append({"level": level, "parents": len(frontier), "ops": len(ops), "new_states": len(seen)})
-        summ["states"] = len(seen)
-        if max_nodes and len(nxt) > max_nodes:
+                self.seen.add(key)
+                g = geometry(w)
+                gpath = node.gpath if node.gpath[-1] == g else node.gpath + (g,)
+                nxt.append(Node(node.hist + [op], node.hist_js + [oj], exp, w, gpath))
+                if level == len(plan) or summ["sample"] is None:
+                    summ["sample"] = {"world": world_name(spec), "history": node.hist_js + [oj], "last_step_expected_and_observed": lines}
+        summ["levels"].append({"level": level, "alphabet": plan[level - 1][0], "parents": len(self.frontier), "ops": len(self.ops),
+                               "states_so_far": len(self.seen)})
+        summ["states"] = len(self.seen)
+        summ["depth"] = level
+        self.metas = None
+        if level >= len(plan):
+            self.done = True
+            return
+        if plan[level][1] == "geom":
+            keep = []
+            for n in nxt:
+                if n.gpath not in self.used_paths:
+                    self.used_paths.add(n.gpath)
+                    keep.append(n)
+            nxt = keep
+        else:
+            for n in nxt:
+                self.used_paths.add(n.gpath)
+        if self.max_nodes and len(nxt) > self.max_nodes:
             summ["capped"] = True
-            nxt = nxt[:max_nodes]
-        frontier = nxt
-        if not frontier:
+            nxt = nxt[:self.max_nodes]
+        self.frontier = nxt
+        if not nxt:
+            self.done = True
+
+
+def explore_bundle(tasks):
+    """several worlds in lockstep: one engine process per level for the whole bundle (process start-up of the
+    harness binary costs about 0.15 s of CPU, far more than a history)."""
+    runs = [WorldRun(t) for t in tasks]
+    while True:
+        parts = [(wr, wr.prepare()) for wr in runs if not wr.done]
+        parts = [(wr, g) for wr, g in parts if g]
+        if not parts:
             break
-    return finish_world(summ)
+        allg = [g for _, gs in parts for g in gs]
+        res = run_groups(allg)
+        k = 0
+        for wr, gs in parts:
+            wr.absorb(res[k:k + len(gs)])
+            k += len(gs)
+    return [finish_world(wr.summ) for wr in runs]
+
+
+def explore_world(task):
+    return explore_bundle([task])[0]
 
 
 def finish_world(summ):
@@ -981,13 +1132,15 @@ def check_run(summ, spec, hist, op, exp, r, setup_js, hist_js=(), oj=None):
         what = "%s: %s -> line %d: got %r expected %r" % (world_name(spec), " ; ".join(list(hist_js) + ([oj] if oj else [])), k,
                                                             got[k] if k < len(got) else None, exp[k] if k < len(exp) else None)
     replay = {"kind": "c15", "hist": [HELPERS, pdef_js(setup_js, list(hist_js)), run_js(oj) if oj else "P();"]}
-    summ["viol"].append({"case": case, "observed": observed, "what": what, "replay": replay, "expected": exp, "got": got,
-                         "completion": comp, "class": classify(spec, op, exp, got, k, comp)})
+    cls = classify(spec, op, exp, got, k, comp)
+    summ["viol"].append({"case": case, "observed": observed, "what": "[%s] %s" % (cls, what), "replay": replay, "expected": exp, "got": got,
+                         "completion": comp, "class": cls})
     return False
 
 
 def _strip_loc(comp):
-    return comp
+    """panic location without the line number (unrelated edits of the engine move lines)"""
+    return re.sub(r"(\.rs):\d+", r"\1", str(comp))
 
 
 def _plain(o):
@@ -1014,9 +1167,35 @@ def world_name(spec):
 
 
 def classify(spec, op, exp, got, k, comp):
+    """root-cause class of a history violation (only used to group the known-findings lists)"""
+    name = op[0] if op else "setup"
     if core.is_bad(comp):
-        return "panic"
-    return "mismatch"
+        if name in ("aload", "astore", "aadd", "acx"):
+            return "atomics-shrink-panic"
+        if name == "bslice":
+            return "arraybuffer-slice-shrink-panic"
+        return "panic-" + name
+    if spec[0] == "ta" and "Float16" in (spec[2], PARTNER[spec[2]]) and name in ("set_ta", "set_list", "put", "fill", "sort", "reverse", "map", "filter",
+                                                                               "with", "toSorted", "toReversed", "define", "afill", "slice_sp"):
+        return "float16-rounding"
+    if spec[0] == "dv" and op and len(op) > 1 and op[1] == "Float16":
+        return "float16-rounding"
+    return "mismatch-" + name
+
+
+def classify_conv(case, route):
+    if case[1] == "store":
+        if route.startswith("[Atomics"):
+            return "atomics-tointeger-clamp"
+        if case[2] == "Float16":
+            return "float16-rounding"
+        return "toint-saturation"
+    t1, t2 = case[2], case[3]
+    if t2 == "Float16":
+        return "float16-rounding"
+    if route.startswith("new "):
+        return "typedarray-ctor-cast"
+    return "toint-saturation"
 
 
 # ------------------------------------------------------------------------------------------------------------------
@@ -1028,7 +1207,9 @@ NUM_VALUES = [math.nan, 0.0, -0.0, math.inf, -math.inf, 3.5e38, -3.5e38, 2.0 ** 
               -(2.0 ** 63), 2.0 ** 63 + 2048, -(2.0 ** 63) - 2048, 2.0 ** 32 - 1, -(2.0 ** 31) - 1, 4294967295.9, -128.5, 32768.0, 65535.0,
               65519.99, 5.960464477539063e-08, 2.9802322387695312e-08, 2.98023223876953125e-08 * 1.0000001, 1.401298464324817e-45,
               7.006492321624085e-46, 3.4028235677973366e38, 3.4028234663852886e38, 1.0000000596046448, 254.5, 253.5, 0.49999999999999994,
-              1e21, 1.7976931348623157e308, 5e-324]
+              1e21, 1.7976931348623157e308, 5e-324,
+              # just above / just below a binary16 tie between 1 and 1+2^-10 (the difference sits in the low 32 bits of the double)
+              1.000488281250001, 1.0004882812499998, 16777217.0, 16777219.0]
 OTHER_NUM = [("s", "12"), ("s", " 0x10 "), ("s", "abc"), ("s", ""), ("s", "-Infinity"), ("s", "1e3"), ("null",), ("u",), ("t",), ("b", 1)]
 BIG_VALUES = [0, -1, 1, 127, 128, 255, 256, 2 ** 63 - 1, 2 ** 63, 2 ** 64 - 1, 2 ** 64, 2 ** 64 + 3, -(2 ** 63), -(2 ** 63) - 1, -(2 ** 64) - 5, 2 ** 100 + 7]
 OTHER_BIG = [("s", "5"), ("s", "0x10"), ("s", "abc"), ("s", "1.5"), ("t",), ("n", 1.0), ("u",), ("null",)]
@@ -1068,9 +1249,6 @@ def conv_store_case(t, val):
     step("%sArray.from([%s])" % (t, vjs), lambda: w.new_ta_from_values(t, [V()]))
     step("(a.set([%s],1),a)" % vjs, lambda: (w.ta_set(a, [V()], 1.0), a)[1])
     step("a.with(0,%s)" % vjs, lambda: w.ta_with(a, 0.0, V()))
-    if M.is_atomic_ok(t):
-        step("[Atomics.store(a,1,%s),a[1]]" % vjs, lambda: [w.atomics_store(a, 1.0, V()), a.get(1)])
-        step("[Atomics.add(a,1,%s),a[1]]" % vjs, lambda: [w.atomics_add(a, 1.0, V()), a.get(1)])
     if t != "Uint8Clamped":
         js.append("d=new DataView(b);")
         d = DV(w.b, 0, 16)
@@ -1081,6 +1259,19 @@ def conv_store_case(t, val):
                 return [w.dv_get(d, t, 1.0, le), w.dv_get(d, t, 1.0, not le), Raw("B" + M.hexbytes(w.b.data))]
             lj = "true" if le else "false"
             step("(d.set%s(1,%s,%s),[d.get%s(1,%s),d.get%s(1,!%s),b])" % (t, vjs, lj, t, lj, t, lj), dvs)
+    if M.is_atomic_ok(t):
+        # last, on a zeroed element, so that a wrong store cannot disturb the other routes
+        n = 16 // M.size_of(t) - 1
+        js.append("a[%d]=%s;" % (n, "0n" if M.is_big(t) else "0"))
+        w.prop_set(a, n, 0 if M.is_big(t) else 0.0)
+        step("[Atomics.store(a,%d,%s),a[%d]]" % (n, vjs, n), lambda: [w.atomics_store(a, float(n), V()), a.get(n)])
+        js.append("a[%d]=%s;" % (n, "0n" if M.is_big(t) else "0"))
+        w.prop_set(a, n, 0 if M.is_big(t) else 0.0)
+        step("[Atomics.add(a,%d,%s),a[%d]]" % (n, vjs, n), lambda: [w.atomics_add(a, float(n), V()), a.get(n)])
+        js.append("a[%d]=%s;" % (n, "0n" if M.is_big(t) else "0"))
+        w.prop_set(a, n, 0 if M.is_big(t) else 0.0)
+        step("[Atomics.compareExchange(a,%d,%s,%s),a[%d]]" % (n, "0n" if M.is_big(t) else "-0", vjs, n),
+             lambda: [w.atomics_cx(a, float(n), 0 if M.is_big(t) else -0.0, V()), a.get(n)])
     return "".join(js), exp
 
 
@@ -1089,7 +1280,8 @@ def conv_pair_case(t1, t2):
     w = World()
     vals = [("b", v) for v in BIG_VALUES] if M.is_big(t1) else [("n", v) for v in NUM_VALUES]
     src = w.new_ta_from_values(t1, [arg_val(v, w) for v in vals])
-    js = ["a=c=d=undefined;b=new ArrayBuffer(8);var s=new %sArray([%s]);" % (t1, ",".join(arg_js(v) for v in vals))]
+    held = [src.get(k) for k in range(len(vals))]          # exactly representable in t1: trivial conversions only
+    js = ["a=c=d=undefined;b=new ArrayBuffer(8);var s=new %sArray([%s]);" % (t1, ",".join(num_js(v) for v in held))]
     exp = []
 
     def step(jsx, f):
@@ -1140,11 +1332,12 @@ def run_conv(chunk):
         for k in bad:
             route = route_of(js, k)
             c = {"case": list(case), "route": route}
-            summ["viol"].append({"case": c, "observed": {"got": got[k] if k < len(got) else None, "completion": comp if not str(comp).startswith("Value") else None},
-                                 "what": "conv %s route `%s`: got %r expected %r" % (" ".join(str(x) for x in case[1:]), route, got[k] if k < len(got) else None,
-                                                                                   exp[k] if k < len(exp) else None),
+            cls = "panic-conv" if core.is_bad(comp) else classify_conv(case, route)
+            summ["viol"].append({"case": c, "observed": {"got": got[k] if k < len(got) else None, "completion": _strip_loc(comp) if not str(comp).startswith("Value") else None},
+                                 "what": "[%s] conv %s route `%s`: got %r expected %r" % (cls, " ".join(str(x) for x in case[1:]), route, got[k] if k < len(got) else None,
+                                                                                        exp[k] if k < len(exp) else None),
                                  "replay": {"kind": "c15", "hist": [HELPERS, "function P(){}", js]}, "expected": exp, "got": got, "completion": comp,
-                                 "class": "panic" if core.is_bad(comp) else "conv"})
+                                 "class": cls})
     summ["outcomes"] = sorted(summ["outcomes"])
     shutil.rmtree(core._tmpdir(), ignore_errors=True)
     return summ
@@ -1161,15 +1354,15 @@ def route_of(js, k):
 # tiers
 # ------------------------------------------------------------------------------------------------------------------
 def plan_for(spec, tier):
-    """list of `full alphabet?` per level"""
+    """[(alphabet, parent filter)] per level; see explore_world"""
     kind = spec[1]
     resizable = BUFKINDS[kind][2] is not None
     if tier == "quick":
-        return [False, False] if (resizable or kind == "ab8") else [False]
+        return [("quick", "all"), ("core", "geom")]
     # thorough
     if resizable:
-        return [True, True, False]
-    return [True, False, False] if kind == "ab8" else [True, False]
+        return [("full", "all"), ("quick", "all"), ("tiny", "all"), ("core", "geom")]
+    return [("full", "all"), ("core", "all"), ("core", "geom")]
 
 
 def tasks_for(tier):
@@ -1181,8 +1374,10 @@ def tasks_for(tier):
 def weight(task):
     spec, plan, _ = task
     w = 1
-    for full in plan:
-        w *= 30 if full else 12
+    for aname, pf in plan:
+        w *= {"full": 40, "quick": 30, "core": 12, "tiny": 4}[aname] if pf == "all" else 2
+    if BUFKINDS[spec[1]][2] is not None:
+        w *= 4
     return -w
 
 
@@ -1190,19 +1385,24 @@ def run(chk):
     tier = chk.tier
     tasks = tasks_for(tier)
     order = sorted(range(len(tasks)), key=lambda i: (weight(tasks[i]), i))
+    nb = core.NPROC * 2
+    bundles = [[i for i in order[k::nb]] for k in range(nb)]
+    bundles = [bd for bd in bundles if bd]
     conv = conv_cases()
-    nchunks = 64
+    nchunks = core.NPROC
     conv_chunks = [conv[i::nchunks] for i in range(nchunks)]
     with Pool(core.NPROC) as pool:
         conv_async = pool.map_async(run_conv, conv_chunks, chunksize=1)
-        res_unordered = pool.map(explore_world, [tasks[i] for i in order], chunksize=1)
+        res_b = pool.map(explore_bundle, [[tasks[i] for i in bd] for bd in bundles], chunksize=1)
         conv_res = conv_async.get()
     results = [None] * len(tasks)
-    for i, r in zip(order, res_unordered):
-        results[i] = r
+    for bd, rs in zip(bundles, res_b):
+        for i, r in zip(bd, rs):
+            results[i] = r
     outcomes = set()
     viols = []
     fam = {}
+    pruned_total = [0]
     for t, s in zip(tasks, results):
         spec = t[0]
         name = "%s/%s" % (spec[0], spec[1])
@@ -1213,11 +1413,15 @@ def run(chk):
         f["transitions"] += s["transitions"]
         f["merged"] += s["merged"]
         f["violations"] += len(s["viol"])
-        f["plan"] = ["full" if x else "quick" for x in t[1]]
+        f["plan"] = ["%s/%s" % x for x in t[1]]
+        f["pruned_after_violation"] = f.get("pruned_after_violation", 0) + s["pruned"]
+        f["max_depth"] = max(f.get("max_depth", 0), s["depth"])
         chk.add(states=s["states"], transitions=s["transitions"], traces_validated_against_impl=s["validated"], evaluations=s["histories"],
                 distinct_nontrivial=s["nontrivial"])
         outcomes.update(s["outcomes"])
         viols += s["viol"]
+        if s["pruned"]:
+            pruned_total[0] += s["pruned"]
         if s["capped"]:
             chk.cov["exhaustive"] = False
             chk.cov["caps_hit"].append("world %s: frontier cut to C15_MAX_NODES" % world_name(spec))
@@ -1225,6 +1429,10 @@ def run(chk):
             chk.sample(s["sample"])
     for name in sorted(fam):
         chk.part(name, **fam[name])
+    if pruned_total[0]:
+        chk.cov["exhaustive"] = False
+        chk.cov["caps_hit"].append("an operation that produced a violation in a world is reported once (shortest history) and not re-applied at deeper "
+                                   "levels of that world: %d longer histories ending in such an operation were not run; everything else was" % pruned_total[0])
     cn = sum(s["n"] for s in conv_res)
     cv = sum(s["validated"] for s in conv_res)
     for s in conv_res:
@@ -1236,19 +1444,21 @@ def run(chk):
     chk.sample({"conv_case": conv[5][0], "js": conv[5][1], "expected": conv[5][2]})
     chk.sample({"conv_case": conv[-7][0], "js": conv[-7][1][:300], "expected": conv[-7][2]})
     # confirm: replay every failing case twice in fresh contexts; observations must repeat
-    confirm(viols)
+    confirm([v for v in viols if chk.findings.lookup(core.sha12(v["case"]), core.sha12(v["observed"])) is None])
     for v in viols:
         chk.violation(v["case"], v["observed"], v["what"], replay={"job": v["replay"], "expected": v["expected"]}, expected=v["expected"])
     chk.cov["distinct_outcomes"] = len(outcomes)
     chk.cov["rule"] = (
-        "E2: per world (buffer kind x view geometry; %d typed-array worlds + %d DataView worlds) all operation histories up to the depth in "
-        "parts[*].plan over the stated alphabet ('quick' = reduced, 'full' = whole alphabet), merged on the model state (buffer bytes + "
-        "detached flag; views are fixed per world); every history is replayed from fresh objects on the real engine and after every step the "
-        "dump of buffer bytes and of every live view is compared with the Python byte model. states = distinct model states reached "
-        "(+1 per conversion case), transitions = history steps executed on the engine including the replayed prefixes (+ one per store route "
-        "of the conversion table), traces_validated = step dumps compared. non-trivial = the step printed something other than `undefined` "
-        "or changed the dump" % (len(ta_worlds()), len(dv_worlds())))
-    chk.cov["model_cross_validated_on"] = "node v20 (V8 11.3) at authoring time: see oracle/c15_xval.md"
+        "E2: per world (buffer kind x view geometry; %d typed-array worlds + %d DataView worlds) all operation histories level by level as "
+        "given in parts[*].plan = [alphabet/parent-filter per level] (alphabets tiny<core<quick<full; filter all = every new model state is "
+        "extended, geom = the first state of every new geometry path), merged on the model state (buffer bytes + detached flag; views are "
+        "fixed per world); every history is replayed from fresh objects on the real engine and after every step the operation result and "
+        "the dump of buffer bytes and of every live view are compared with the Python byte model. states = distinct model states reached "
+        "(+1 per conversion case), transitions = history steps executed on the engine including the replayed prefixes (+ one per store "
+        "route of the conversion table), traces_validated = step dumps compared. non-trivial = the step printed something other than "
+        "`undefined` or changed the dump" % (len(ta_worlds()), len(dv_worlds())))
+    chk.cov["model_cross_validated_on"] = ("node v20 (V8 11.3) at authoring time: 6759 conversion routes, 5204 DataView histories, 46744 depth-1 and "
+                                           "263974 depth-2 typed-array histories; all differences are the 5 documented V8 deviations (oracle/c15_xval.md)")
     chk.cov["features_probed"] = {"Float16Array": True, "resizable ArrayBuffer": True, "growable SharedArrayBuffer": True,
                                   "ArrayBuffer.prototype.transfer": False}
     chk.assumptions += [
